@@ -632,7 +632,14 @@ everywhere), so that the dotless output has no insert columns.  Any size (`alen`
 weights, and the rows AS WRITTEN: letters upper-cased, `O`/`o` (pyrrolysine) as `X` / the unknown residue, every
 non-residue symbol (text: non-letters; digital: gap, `*`, `~`) as `-` / the gap (`a2mRow_text`, `a2mRow_digital`);
 rows made of upper-case letters other than `O` and `-` come back unchanged (`a2m_preserves_names_rows`).
-PARTIAL with respect to the full statement: alignments with insert columns (a non-consensus column) are not covered. -/
+The theorems of this first part (`a2m_roundtrip…`, `a2m_write_accepted…`, `a2m_rewrite_same…`) are for alignments WITHOUT insert
+columns.  Alignments WITH insert columns (any `msa->rf`, or none: first sequence as consensus) are covered by the second part
+below ("A2M, alignments with insert columns"): `a2m_roundtrip_ins_text/_digital/_ins` (read ∘ write = `a2mProjectIns`, the
+reader's padding phase included, any number of records and of 60-character lines), `a2m_ins_write_accepted(_digital)`,
+`a2m_ins_rewrite_same_text/_digital` (write ∘ read ∘ write = write), and `a2m_ins_subsumes_text/_digital` (for an insert-free
+alignment `a2mProjectIns = a2mProject`, so the second part subsumes the first).  Records that print no character at all are
+covered too (`exA2mInsEmpty`).  Not covered: separate accessions (`msa->sqacc`; the writer prints them into the description),
+and the non-dotless output (`do_dotless = FALSE` is not reachable through the API). -/
 
 theorem a2m_write_deterministic (abc : Option Abc) (m₁ m₂ : Msa) (h : m₁ = m₂) : a2mWrite abc m₁ = a2mWrite abc m₂ := by rw [h]
 
@@ -810,6 +817,275 @@ theorem exA2mDna_writable : A2mDigitalWritable abcDna exA2mDna :=
     row_ok := fun i hi => by
       rcases lt_two_cases i hi with rfl | rfl <;> decide +kernel
     cons_ok := by decide +kernel }
+
+/-! ### A2M, alignments with insert columns (the consensus / insert case convention)
+
+`A2mInsTextWritable` / `A2mInsDigitalWritable a` drop the "every column a consensus column" and "≥ 1 column" conditions: any
+`msa->rf` (or none), any mixture of consensus and insert columns, even none of either; a record may even print no character at
+all (no consensus column and no residue in the row: the reader's `thislen == 0` edge case).  `a2mProjectIns` is what A2M represents of such an alignment (see its
+definition in `A2mInsRoundTrip.lean`): the `ncons` consensus columns, and `ncons + 1` blocks of insert columns, block
+`j` as wide as the longest run of inserted residues any sequence has between consensus columns `j-1` and `j`; inside a
+block every sequence's inserted residues are left-justified and padded on the right with `.` (text) / the gap code
+(digital); insert columns that hold no residue in any sequence vanish; `rf` is `x` on consensus columns, `.` on insert
+columns; consensus residues upper case, inserted residues lower case, `O`/`o` as `X`/`x` (the unknown residue). -/
+
+theorem a2mDigInsOk_of (a : Abc) (ha : a = abcAmino ∨ a = abcDna ∨ a = abcRna) : a2mDigInsOk a = true := by
+  rcases ha with h | h | h <;> subst h
+  · exact a2mDigInsOk_amino
+  · exact a2mDigInsOk_dna
+  · exact a2mDigInsOk_rna
+
+/-- **A2M round trip with insert columns, text mode**: `read (write m) = ok (projectIns m)`, nothing left unread -/
+theorem a2m_roundtrip_ins_text (m : Msa) (h : A2mInsTextWritable m) :
+    a2mRead (a2mCfg none) (splitLines (a2mWrite none m)) = (.ok (a2mProjectIns none (a2mCfg none) id m), []) :=
+  a2mRead_write_ins (a2mInsTextWritable_writable m h)
+
+/-- **A2M round trip with insert columns, digital mode** (amino, DNA, RNA) -/
+theorem a2m_roundtrip_ins_digital (a : Abc) (ha : a = abcAmino ∨ a = abcDna ∨ a = abcRna) (m : Msa) (h : A2mInsDigitalWritable a m) :
+    a2mRead (a2mCfg (some a)) (splitLines (a2mWrite (some a) m))
+      = (.ok (a2mProjectIns (some a) (a2mCfg (some a)) (a2mEnc a) m), []) :=
+  a2mRead_write_ins (a2mInsDigitalWritable_writable a (a2mDigSymOk_of a ha) (a2mDigInsOk_of a ha) m h)
+
+/-- the general form both are instances of -/
+theorem a2m_roundtrip_ins (abc : Option Abc) (cfg : Cfg) (enc : UInt8 → UInt8) (m : Msa) (h : A2mInsWritable abc cfg enc m) :
+    a2mRead cfg (splitLines (a2mWrite abc m)) = (.ok (a2mProjectIns abc cfg enc m), []) :=
+  a2mRead_write_ins h
+
+/-- library-written A2M output with insert columns is accepted by the reader, holds exactly one alignment (the next read is
+    eslEOF), and the alignment read back is well formed (text mode) -/
+theorem a2m_ins_write_accepted (m : Msa) (h : A2mInsTextWritable m) :
+    (∃ m', (a2mRead (a2mCfg none) (splitLines (a2mWrite none m))).1 = .ok m' ∧ m'.wellFormed = true) ∧
+    (a2mRead (a2mCfg none) (a2mRead (a2mCfg none) (splitLines (a2mWrite none m))).2).1 = .eof := by
+  have hr := a2m_roundtrip_ins_text m h
+  have hg := a2mRead_good (a2mCfg none) ⟨by decide +kernel, by decide +kernel⟩ ⟨by decide +kernel, by decide +kernel⟩
+    (splitLines (a2mWrite none m))
+  rw [hr] at hg
+  refine ⟨⟨_, by rw [hr], hg⟩, ?_⟩
+  rw [hr]
+  simp [a2mRead, runLines, a2mFinish]
+
+/-- … and in digital mode (amino, DNA, RNA) -/
+theorem a2m_ins_write_accepted_digital (a : Abc) (ha : a = abcAmino ∨ a = abcDna ∨ a = abcRna) (m : Msa)
+    (h : A2mInsDigitalWritable a m) :
+    (∃ m', (a2mRead (a2mCfg (some a)) (splitLines (a2mWrite (some a) m))).1 = .ok m' ∧ m'.wellFormed = true) ∧
+    (a2mRead (a2mCfg (some a)) (a2mRead (a2mCfg (some a)) (splitLines (a2mWrite (some a) m))).2).1 = .eof := by
+  have hr := a2m_roundtrip_ins_digital a ha m h
+  have hv : (a2mCfg (some a)).valid ∧ A2mValid (a2mCfg (some a)) := by
+    rcases ha with h | h | h <;> subst h
+    · exact ⟨⟨by decide +kernel, by decide +kernel⟩, ⟨by decide +kernel, by decide +kernel⟩⟩
+    · exact ⟨⟨by decide +kernel, by decide +kernel⟩, ⟨by decide +kernel, by decide +kernel⟩⟩
+    · exact ⟨⟨by decide +kernel, by decide +kernel⟩, ⟨by decide +kernel, by decide +kernel⟩⟩
+  have hg := a2mRead_good (a2mCfg (some a)) hv.1 hv.2 (splitLines (a2mWrite (some a) m))
+  rw [hr] at hg
+  refine ⟨⟨_, by rw [hr], hg⟩, ?_⟩
+  rw [hr]
+  simp [a2mRead, runLines, a2mFinish]
+
+/-! ## non-vacuity (insert columns) -/
+
+/-- 3 sequences, 7 columns, `rf` = `x..x..x`: rows `A-cC..G`, `a..C.GT`, `-cdC..T`.
+    Column 4 is an all-gap insert column (vanishes); `c` of the first row moves left and is padded (`c.`); the lower-case `a`
+    in a consensus column comes back as `A`, the upper-case `G` in an insert column as `g`. -/
+def exA2mIns : Msa :=
+  { alen := 7, names := [[97], [98], [99]],
+    aseq := [[65, 45, 99, 67, 46, 46, 71], [97, 46, 46, 67, 46, 71, 84], [45, 99, 100, 67, 46, 46, 84]],
+    wgt := [.dflt, .dflt, .dflt], rf := some [120, 46, 46, 120, 46, 46, 120] }
+
+example : a2mWrite none exA2mIns
+    = [62, 97, 10, 65, 99, 67, 71, 10, 62, 98, 10, 65, 67, 103, 84, 10, 62, 99, 10, 45, 99, 100, 67, 84, 10] := by decide +kernel
+example : a2mRead (a2mCfg none) (splitLines (a2mWrite none exA2mIns))
+    = (.ok (a2mProjectIns none (a2mCfg none) id exA2mIns), []) := by decide +kernel
+example : (a2mProjectIns none (a2mCfg none) id exA2mIns).alen = 6 := by decide +kernel
+example : (a2mProjectIns none (a2mCfg none) id exA2mIns).aseq
+    = [[65, 99, 46, 67, 46, 71], [65, 46, 46, 67, 103, 84], [45, 99, 100, 67, 46, 84]] := by decide +kernel
+example : (a2mProjectIns none (a2mCfg none) id exA2mIns).rf = some [120, 46, 46, 120, 46, 120] := by decide +kernel
+example : a2mNins none exA2mIns = [0, 2, 1, 0] := by decide +kernel
+
+theorem lt_three_cases (i : Nat) (h : i < 3) : i = 0 ∨ i = 1 ∨ i = 2 := by omega
+
+/-- the hypotheses of the text-mode theorems with insert columns hold of `exA2mIns` -/
+theorem exA2mIns_writable : A2mInsTextWritable exA2mIns :=
+  { dig := rfl, n1 := by decide, acc_none := rfl
+    name_ok := fun i hi => by
+      rcases lt_three_cases i hi with rfl | rfl | rfl
+      · exact ⟨by decide, by decide⟩
+      · exact ⟨by decide, by decide⟩
+      · exact ⟨by decide, by decide⟩
+    desc_ok := fun i hi d hd => by
+      have h0 : optAt exA2mIns.sqdesc i = none := by
+        rcases lt_three_cases i hi with rfl | rfl | rfl <;> decide +kernel
+      rw [h0] at hd
+      cases hd
+    hdr_line := fun i hi => by
+      rcases lt_three_cases i hi with rfl | rfl | rfl
+      · exact ⟨by decide +kernel, by decide +kernel⟩
+      · exact ⟨by decide +kernel, by decide +kernel⟩
+      · exact ⟨by decide +kernel, by decide +kernel⟩
+    row_len := fun i hi => by
+      rcases lt_three_cases i hi with rfl | rfl | rfl <;> decide }
+
+/-- DNA, `rf` = `x.x..x`: rows `A c G - - T`, `A - - - - T`, `- - G - t T`; column 3 vanishes, the pad is the gap code 4 -/
+def exA2mInsDna : Msa :=
+  { digital := true, kp := 18, alen := 6, names := [[97], [98], [99]],
+    ax := [[255, 0, 1, 2, 4, 4, 3, 255], [255, 0, 4, 4, 4, 4, 3, 255], [255, 4, 4, 2, 4, 3, 3, 255]],
+    wgt := [.dflt, .dflt, .dflt], rf := some [120, 46, 120, 46, 46, 120] }
+
+example : a2mRead (a2mCfg (some abcDna)) (splitLines (a2mWrite (some abcDna) exA2mInsDna))
+    = (.ok (a2mProjectIns (some abcDna) (a2mCfg (some abcDna)) (a2mEnc abcDna) exA2mInsDna), []) := by decide +kernel
+example : (a2mProjectIns (some abcDna) (a2mCfg (some abcDna)) (a2mEnc abcDna) exA2mInsDna).ax
+    = [[255, 0, 1, 2, 4, 3, 255], [255, 0, 4, 4, 4, 3, 255], [255, 4, 4, 2, 3, 3, 255]] := by decide +kernel
+example : (a2mProjectIns (some abcDna) (a2mCfg (some abcDna)) (a2mEnc abcDna) exA2mInsDna).rf
+    = some [120, 46, 120, 46, 120] := by decide +kernel
+
+/-- the hypotheses of the digital theorems with insert columns hold of `exA2mInsDna` -/
+theorem exA2mInsDna_writable : A2mInsDigitalWritable abcDna exA2mInsDna :=
+  { dig := rfl, n1 := by decide, acc_none := rfl
+    name_ok := fun i hi => by
+      rcases lt_three_cases i hi with rfl | rfl | rfl
+      · exact ⟨by decide, by decide⟩
+      · exact ⟨by decide, by decide⟩
+      · exact ⟨by decide, by decide⟩
+    desc_ok := fun i hi d hd => by
+      have h0 : optAt exA2mInsDna.sqdesc i = none := by
+        rcases lt_three_cases i hi with rfl | rfl | rfl <;> decide +kernel
+      rw [h0] at hd
+      cases hd
+    hdr_line := fun i hi => by
+      rcases lt_three_cases i hi with rfl | rfl | rfl
+      · exact ⟨by decide +kernel, by decide +kernel⟩
+      · exact ⟨by decide +kernel, by decide +kernel⟩
+      · exact ⟨by decide +kernel, by decide +kernel⟩
+    row_ok := fun i hi => by
+      rcases lt_three_cases i hi with rfl | rfl | rfl <;> decide +kernel }
+
+/-- 62 columns, column 30 an insert column: two lines per record (60 + 2 and 60 + 1 characters) -/
+def exA2mInsLong : Msa :=
+  { alen := 62, names := [[97], [98]],
+    aseq := [List.replicate 62 65, List.replicate 30 67 ++ [46] ++ List.replicate 31 67], wgt := [.dflt, .dflt],
+    rf := some (List.replicate 30 120 ++ [46] ++ List.replicate 31 120) }
+
+example : (a2mLines none exA2mInsLong).map List.length = [2, 60, 2, 2, 60, 1] := by decide +kernel
+example : a2mRead (a2mCfg none) (splitLines (a2mWrite none exA2mInsLong))
+    = (.ok (a2mProjectIns none (a2mCfg none) id exA2mInsLong), []) := by decide +kernel
+example : (a2mProjectIns none (a2mCfg none) id exA2mInsLong).aseq
+    = [List.replicate 30 65 ++ [97] ++ List.replicate 31 65, List.replicate 30 67 ++ [46] ++ List.replicate 31 67] := by
+  decide +kernel
+
+/-- no consensus column at all; the second record prints nothing (a name line only): rows `ac`, `..`, `.g` come back as
+    `ac`, `..`, `g.`; and an alignment of zero columns -/
+def exA2mInsEmpty : Msa :=
+  { alen := 2, names := [[97], [98], [99]], aseq := [[97, 99], [46, 46], [46, 103]], wgt := [.dflt, .dflt, .dflt],
+    rf := some [46, 46] }
+
+example : a2mWrite none exA2mInsEmpty = [62, 97, 10, 97, 99, 10, 62, 98, 10, 62, 99, 10, 103, 10] := by decide +kernel
+example : a2mRead (a2mCfg none) (splitLines (a2mWrite none exA2mInsEmpty))
+    = (.ok (a2mProjectIns none (a2mCfg none) id exA2mInsEmpty), []) := by decide +kernel
+example : (a2mProjectIns none (a2mCfg none) id exA2mInsEmpty).aseq = [[97, 99], [46, 46], [103, 46]] := by decide +kernel
+example : (a2mProjectIns none (a2mCfg none) id exA2mInsEmpty).rf = some [46, 46] := by decide +kernel
+
+theorem exA2mInsEmpty_writable : A2mInsTextWritable exA2mInsEmpty :=
+  { dig := rfl, n1 := by decide, acc_none := rfl
+    name_ok := fun i hi => by
+      rcases lt_three_cases i hi with rfl | rfl | rfl
+      · exact ⟨by decide, by decide⟩
+      · exact ⟨by decide, by decide⟩
+      · exact ⟨by decide, by decide⟩
+    desc_ok := fun i hi d hd => by
+      have h0 : optAt exA2mInsEmpty.sqdesc i = none := by
+        rcases lt_three_cases i hi with rfl | rfl | rfl <;> decide +kernel
+      rw [h0] at hd
+      cases hd
+    hdr_line := fun i hi => by
+      rcases lt_three_cases i hi with rfl | rfl | rfl
+      · exact ⟨by decide +kernel, by decide +kernel⟩
+      · exact ⟨by decide +kernel, by decide +kernel⟩
+      · exact ⟨by decide +kernel, by decide +kernel⟩
+    row_len := fun i hi => by
+      rcases lt_three_cases i hi with rfl | rfl | rfl <;> decide }
+
+/-! ### A2M with insert columns: re-writing, and the insert-free case -/
+
+theorem a2mDigCellFixB_of (a : Abc) (ha : a = abcAmino ∨ a = abcDna ∨ a = abcRna) : a2mDigCellFixB a = true := by
+  rcases ha with h | h | h <;> subst h
+  · exact a2mDigCellFixB_amino
+  · exact a2mDigCellFixB_dna
+  · exact a2mDigCellFixB_rna
+
+/-- **re-writing the re-read alignment reproduces the same bytes** (text mode, insert columns allowed) -/
+theorem a2m_ins_rewrite_same_text (m : Msa) (h : A2mInsTextWritable m) :
+    ∃ m', (a2mRead (a2mCfg none) (splitLines (a2mWrite none m))).1 = .ok m' ∧ a2mWrite none m' = a2mWrite none m :=
+  ⟨a2mProjectIns none (a2mCfg none) id m, by rw [a2m_roundtrip_ins_text m h], a2mWrite_projectIns_text m h⟩
+
+/-- … and in digital mode (amino, DNA, RNA) -/
+theorem a2m_ins_rewrite_same_digital (a : Abc) (ha : a = abcAmino ∨ a = abcDna ∨ a = abcRna) (m : Msa)
+    (h : A2mInsDigitalWritable a m) :
+    ∃ m', (a2mRead (a2mCfg (some a)) (splitLines (a2mWrite (some a) m))).1 = .ok m' ∧ a2mWrite (some a) m' = a2mWrite (some a) m :=
+  ⟨a2mProjectIns (some a) (a2mCfg (some a)) (a2mEnc a) m, by rw [a2m_roundtrip_ins_digital a ha m h],
+    a2mWrite_projectIns_digital a (a2mDigSymOk_of a ha) (a2mDigInsOk_of a ha) (a2mDigCellFixB_of a ha) m h⟩
+
+/-- the general form: `write (projectIns m) = write m` whenever every printed character, read back and printed again in a
+    column of its kind (`x` / `.`), is itself and the padding symbol prints as nothing in an insert column -/
+theorem a2m_ins_rewrite_same (abc : Option Abc) (cfg : Cfg) (enc : UInt8 → UInt8) (m : Msa) (h : A2mInsWritable abc cfg enc m)
+    (hd : cfg.digital = abc.isSome) (hpad : a2mCell abc 46 cfg.padSym = none)
+    (hrow : ∀ i, i < m.nseq → ∀ t ∈ a2mWr abc m i, a2mCell abc (if isLower t then 46 else 120) (enc t) = some t) :
+    a2mWrite abc (a2mProjectIns abc cfg enc m) = a2mWrite abc m :=
+  a2mWrite_projectIns h hd hpad hrow
+
+/-- the theorems with insert columns subsume the insert-free ones: an `A2mTextWritable` alignment is `A2mInsTextWritable`,
+    and for it `a2mProjectIns` is `a2mProject` -/
+theorem a2m_ins_subsumes_text (m : Msa) (h : A2mTextWritable m) :
+    A2mInsTextWritable m ∧ a2mProjectIns none (a2mCfg none) id m = a2mProject none (a2mCfg none) id m :=
+  ⟨a2mTextWritable_ins m h, a2mProjectIns_eq_project_text m h⟩
+
+/-- … and in digital mode (amino, DNA, RNA) -/
+theorem a2m_ins_subsumes_digital (a : Abc) (ha : a = abcAmino ∨ a = abcDna ∨ a = abcRna) (m : Msa) (h : A2mDigitalWritable a m) :
+    A2mInsDigitalWritable a m ∧
+    a2mProjectIns (some a) (a2mCfg (some a)) (a2mEnc a) m = a2mProject (some a) (a2mCfg (some a)) (a2mEnc a) m :=
+  ⟨a2mDigitalWritable_ins a m h, a2mProjectIns_eq_project_digital a (a2mDigSymOk_of a ha) m h⟩
+
+/-- the general form: every column a consensus column -/
+theorem a2m_ins_subsumes (abc : Option Abc) (cfg : Cfg) (enc : UInt8 → UInt8) (m : Msa) (h : A2mWritable abc cfg enc m)
+    (hc : ∀ pos, pos < m.alen → isConsensusCol abc m pos = true) :
+    A2mInsWritable abc cfg enc m ∧ a2mProjectIns abc cfg enc m = a2mProject abc cfg enc m :=
+  ⟨a2mWritable_ins h hc, a2mProjectIns_eq_project h hc⟩
+
+example : a2mWrite none (a2mProjectIns none (a2mCfg none) id exA2mIns) = a2mWrite none exA2mIns := by decide +kernel
+example : a2mWrite (some abcDna) (a2mProjectIns (some abcDna) (a2mCfg (some abcDna)) (a2mEnc abcDna) exA2mInsDna)
+    = a2mWrite (some abcDna) exA2mInsDna := by decide +kernel
+example : a2mWrite none (a2mProjectIns none (a2mCfg none) id exA2mInsLong) = a2mWrite none exA2mInsLong := by decide +kernel
+example : a2mProjectIns none (a2mCfg none) id exA2m = a2mProject none (a2mCfg none) id exA2m := by decide +kernel
+example : a2mProjectIns (some abcDna) (a2mCfg (some abcDna)) (a2mEnc abcDna) exA2mDna
+    = a2mProject (some abcDna) (a2mCfg (some abcDna)) (a2mEnc abcDna) exA2mDna := by decide +kernel
+example : ∃ m', (a2mRead (a2mCfg none) (splitLines (a2mWrite none exA2mIns))).1 = .ok m' ∧ a2mWrite none m' = a2mWrite none exA2mIns :=
+  a2m_ins_rewrite_same_text exA2mIns exA2mIns_writable
+example : A2mInsTextWritable exA2m ∧ a2mProjectIns none (a2mCfg none) id exA2m = a2mProject none (a2mCfg none) id exA2m :=
+  a2m_ins_subsumes_text exA2m exA2m_writable
+
+/-- what comes back (any mode): names, default weights, `alen` = consensus columns + the widths of the blocks of insert
+    columns, `rf` = `.` over every block and `x` on every consensus column -/
+theorem a2m_ins_shape (abc : Option Abc) (cfg : Cfg) (enc : UInt8 → UInt8) (m : Msa) :
+    (a2mProjectIns abc cfg enc m).names = m.names ∧
+    (a2mProjectIns abc cfg enc m).alen = a2mNcons abc m + (a2mNins abc m).sum ∧
+    (a2mProjectIns abc cfg enc m).rf = some (rfOf (a2mNins abc m)) ∧
+    (a2mProjectIns abc cfg enc m).wgt = List.replicate m.nseq Wgt.dflt ∧
+    (a2mProjectIns abc cfg enc m).sqacc = none :=
+  ⟨rfl, rfl, rfl, rfl, rfl⟩
+
+/-- what comes back in text mode, row by row: the characters written for the row (`a2mWr`: letters of consensus columns upper
+    case, other symbols of consensus columns `-`, letters of insert columns lower case, `O`/`o` as `X`/`x`, nothing else),
+    cut at the consensus characters, every run of inserts padded with `.` to the width of its block -/
+theorem a2m_ins_rows_text (m : Msa) (i : Nat) (hi : i < m.nseq) :
+    (a2mProjectIns none (a2mCfg none) id m).aseq.getD i [] = padSegs 46 (a2mNins none m) (splitRow (a2mWr none m i)) :=
+  a2mInsRow_text m i hi
+
+/-- … and in digital mode: the codes the written characters are read back as, padded with the gap code -/
+theorem a2m_ins_rows_digital (a : Abc) (m : Msa) (i : Nat) (hi : i < m.nseq) :
+    (a2mProjectIns (some a) (a2mCfg (some a)) (a2mEnc a) m).ax.getD i []
+      = dsqSENTINEL :: padSegs a.gap (a2mNins (some a) m) (segMap (a2mEnc a) (splitRow (a2mWr (some a) m i))) ++ [dsqSENTINEL] :=
+  a2mInsRow_digital a m i hi
+
+example : splitRow (a2mWr none exA2mIns 2) = ([], [(45, [99, 100]), (67, []), (84, [])]) := by decide +kernel
+example : padSegs 46 [0, 2, 1, 0] ([], [(65, [99]), (67, []), (71, [])]) = [65, 99, 46, 67, 46, 71] := by decide +kernel
 
 /-! ## ===== SELEX / A2M — end ===== -/
 
